@@ -44,7 +44,9 @@ def _qualname_functions(tree):
 
 def _own_nodes(fn):
     """nodes of fn excluding nested function/class bodies"""
-    stack = [s for s in fn.body if not isinstance(s, (ast.FunctionDef, ast.AsyncFunctionDef, ast.ClassDef))]
+    # nested definitions that are statements of the body itself are walked (closures share the enclosing function's locals:
+    # `event_defs` of _use_structure_parse is used inside its nested semiparse); deeper ones are not
+    stack = list(fn.body)
     while stack:
         n = stack.pop()
         yield n
@@ -216,4 +218,8 @@ def restore(tree):
             for node in _own_nodes(fn):
                 if isinstance(node, ast.Name) and node.id in mapping:
                     node.id = mapping[node.id]
+                elif isinstance(node, ast.arg) and node.arg in mapping:
+                    # a parameter of a nested definition with the same (renamed) name: its uses in that body were renamed with
+                    # the rest, so the parameter follows - a consistent renaming inside the nested scope
+                    node.arg = mapping[node.arg]
     return done
